@@ -1129,6 +1129,17 @@ struct DefineDestructor : std::integral_constant<bool, !std::is_trivially_destru
 template <class T>
 struct DefineDestructor<T, false> : std::integral_constant<bool, true> {};
 
+/// Capacity needed to add 'count' elements to a vector of 'size' elements.
+/// The sum is made in uintmax_t: it can only wrap around for a 64 bits size_type, which is checked here.
+template <class SizeType>
+inline uintmax_t NeededCapacity(SizeType size, uintmax_t count) {
+  const uintmax_t neededCapacity = static_cast<uintmax_t>(size) + count;
+  if (AMC_UNLIKELY(neededCapacity < count)) {
+    throw std::overflow_error("Attempt to use more elements that size_type can support");
+  }
+  return neededCapacity;
+}
+
 /// Implementation class with definitions independent from the traits of type T and number of elements
 template <class T, class Alloc, class SizeType, bool WithInlineElements, class GrowingPolicy>
 class VectorImpl
@@ -1340,7 +1351,7 @@ class VectorImpl
     assert(position >= this->cbegin() && position <= cend());
     iterator pos;
     if (count > 0) {
-      const_reference newV = this->adjustCapacity(static_cast<uintmax_t>(this->size()) + count, v, &position);
+      const_reference newV = this->adjustCapacity(NeededCapacity(this->size(), count), v, &position);
       pos = const_cast<iterator>(position);
       SizeType nElemsToShift = static_cast<SizeType>(this->size() - (pos - this->begin()));
       if (nElemsToShift == 0) {
@@ -1492,13 +1503,13 @@ class VectorImpl
 #endif
 
   void append(size_type count) {
-    this->adjustCapacity(static_cast<uintmax_t>(this->size()) + count);
+    this->adjustCapacity(NeededCapacity(this->size(), count));
     amc::uninitialized_value_construct_n(end(), count);
     this->setSize(this->size() + count);
   }
 
   void append(size_type count, const_reference v) {
-    const_reference newV = this->adjustCapacity(static_cast<uintmax_t>(this->size()) + count, v);
+    const_reference newV = this->adjustCapacity(NeededCapacity(this->size(), count), v);
     std::uninitialized_fill_n(end(), count, newV);
     this->setSize(this->size() + count);
   }
